@@ -11,9 +11,9 @@ func init() {
 	register(&Property{
 		ID:         "C42",
 		Level:      "other",
-		Technique:  "finite case analysis of strs.GoCamelCase over all (previous byte, byte, next byte) contexts of protobuf identifier characters; shape rule for GoSanitized; CFG dominance of the FieldMask reversibility test (static)",
-		Explain:    "Decides three of the four clauses of C42 structurally: (1) GoCamelCase processes its input byte by byte with a switch whose conditions depend only on the byte, on whether it is the first, on the previous byte being '.', and on the class of the next byte; the switch is evaluated for every context over the identifier alphabet [A-Za-z0-9_] (every first byte in [A-Za-z_] with every possible next byte or none; every later byte with every previous and next byte): at the first position at least one byte is emitted and the first emitted byte is in [A-Z], and every byte ever emitted is in [A-Za-z0-9_] — so the result of a valid protobuf identifier matches [A-Z][A-Za-z0-9_]*, an exported Go identifier that is not a keyword; (2) GoSanitized maps every rune that is not a Unicode letter or digit to '_' and prefixes '_' whenever the result is a keyword or does not start with a letter, so the result is a Go identifier (letter or '_' first, then letters, digits, '_') and not a keyword; (3) JSONSnakeCase(JSONCamelCase(s)) == s holds for every FieldMask path protojson emits, because the writer emits a path only on that established equality (R-FIELDMASK-REVERSIBLE).",
-		NotCovered: "pairwise distinctness of the names inside a generated message (needs the generator's name-allocation on concrete schemas); identifiers containing '.' (full names) in GoCamelCase.",
+		Technique:  "finite case analysis of strs.GoCamelCase over all (previous byte, byte, next byte) contexts of protobuf identifier characters; shape rule for GoSanitized; CFG dominance of the FieldMask reversibility test; agreement of protogen's accessor clash check with the generator's emission guards and structural completeness of the name-allocation tables (static)",
+		Explain:    "Decides three of the four clauses of C42 structurally: (1) GoCamelCase processes its input byte by byte with a switch whose conditions depend only on the byte, on whether it is the first, on the previous byte being '.', and on the class of the next byte; the switch is evaluated for every context over the identifier alphabet [A-Za-z0-9_] (every first byte in [A-Za-z_] with every possible next byte or none; every later byte with every previous and next byte): at the first position at least one byte is emitted and the first emitted byte is in [A-Z], and every byte ever emitted is in [A-Za-z0-9_] — so the result of a valid protobuf identifier matches [A-Z][A-Za-z0-9_]*, an exported Go identifier that is not a keyword; (2) GoSanitized maps every rune that is not a Unicode letter or digit to '_' and prefixes '_' whenever the result is a keyword or does not start with a letter, so the result is a Go identifier (letter or '_' first, then letters, digits, '_') and not a keyword; (3) JSONSnakeCase(JSONCamelCase(s)) == s holds for every FieldMask path protojson emits, because the writer emits a path only on that established equality (R-FIELDMASK-REVERSIBLE). (4) for the fourth clause (names inside a generated message are pairwise distinct) four structural necessary conditions: opaqueNewMessageHook considers for clashes every accessor internal_gengo emits (Get/Set always, Has/Clear under the same condition as the generator's emission guards); a oneof's base name is related to the fields' base names (shared Has/Clear prefixes); oneofs are registered with makeNameUnique as having a getter; oneof wrapper types are compared with each other. The last three fail on the current tree with confirmed inputs and are listed as open findings D27, D28, D29.",
+		NotCovered: "pairwise distinctness of the names inside a generated message on concrete schemas beyond the four structural clauses decided here (clash check covers every emitted accessor; oneof base names related to field base names; oneofs registered with their getter; wrapper types compared with each other) — three of these are open findings D27-D29; identifiers containing '.' (full names) in GoCamelCase.",
 		Quick:      all("./internal/strs", "./encoding/protojson", "./compiler/protogen", "./cmd/protoc-gen-go/internal_gengo"),
 		Thorough:   all("./..."),
 		Run: func(c *Ctx) {
@@ -21,6 +21,8 @@ func init() {
 			c.ruleGoSanitized("R-GOSANITIZED-SHAPE")
 			c.ruleFieldMaskReversible("R-FIELDMASK-REVERSIBLE")
 			c.ruleMethodClashCoverage("R-METHOD-CLASH-COVERAGE")
+			c.ruleAccessorBaseUnique("R-ACCESSOR-BASE-UNIQUE")
+			c.ruleOpenAPINameAllocation("R-UNIQUE-NAME-GETTER", "R-ONEOF-WRAPPER-UNIQUE")
 		},
 	})
 }
@@ -531,4 +533,142 @@ func (c *Ctx) ruleMethodClashCoverage(rule string) {
 			R.Unk(rule, callee+" call sites", "", "no call of "+callee+" found in a field loop of internal_gengo")
 		}
 	}
+}
+
+// R-ACCESSOR-BASE-UNIQUE: in the Opaque/Hybrid API a field gets Get/Set/Has/
+// Clear + base name and a oneof gets Has/Clear/Which + base name, where the
+// base name is the camel-cased proto name. resolveCamelCaseConflicts makes the
+// base names of fields pairwise distinct; because Has and Clear are shared
+// prefixes, a oneof's base name also has to be told apart from every field's
+// base name (by a test of one against the other that renames or sets the
+// conflict marker). Without such a test `oneof foo` and `optional int32 Foo`
+// both get HasFoo and ClearFoo.
+func (c *Ctx) ruleAccessorBaseUnique(rule string) {
+	R, P := c.R, c.P
+	R.Rule(rule, "protogen's opaque naming hooks compare a oneof's camelCase with the fields' camelCase (an equality between the two, or a lookup of the oneof's unprefixed camelCase in a map keyed by field names that is not an insertion), since oneofs and fields share the Has and Clear prefixes", 1)
+	found := ""
+	n := 0
+	for _, key := range []string{"compiler/protogen.opaqueNewMessageHook", "compiler/protogen.resolveCamelCaseConflicts", "compiler/protogen.resolveCamelCaseConflict"} {
+		fi := c.need(rule, key)
+		if fi == nil {
+			continue
+		}
+		n++
+		info := fi.Info()
+		kindOf := func(e ast.Expr) string {
+			se, ok := unparen(e).(*ast.SelectorExpr)
+			if !ok || se.Sel.Name != "camelCase" {
+				return ""
+			}
+			return namedTypeName(info.TypeOf(se.X))
+		}
+		lhs := map[ast.Expr]bool{}
+		walkAll(fi.Decl.Body, func(m ast.Node) bool {
+			if as, ok := m.(*ast.AssignStmt); ok {
+				for _, l := range as.Lhs {
+					lhs[unparen(l)] = true
+				}
+			}
+			return true
+		})
+		walkAll(fi.Decl.Body, func(m ast.Node) bool {
+			switch x := m.(type) {
+			case *ast.BinaryExpr:
+				if x.Op == token.EQL || x.Op == token.NEQ {
+					a, b := kindOf(x.X), kindOf(x.Y)
+					if (a == "compiler/protogen.Oneof" && b == "compiler/protogen.Field") || (b == "compiler/protogen.Oneof" && a == "compiler/protogen.Field") {
+						found = P.Pos(x)
+					}
+				}
+			case *ast.IndexExpr:
+				if !lhs[x] && kindOf(x.Index) == "compiler/protogen.Oneof" {
+					if _, isMap := info.TypeOf(x.X).Underlying().(*types.Map); isMap {
+						found = P.Pos(x)
+					}
+				}
+			}
+			return true
+		})
+	}
+	if n == 0 {
+		return
+	}
+	key := "compiler/protogen.opaqueNewMessageHook oneof/field base names"
+	if found != "" {
+		R.OK(rule, key, found, "oneof base name tested against field base names")
+	} else {
+		R.Bad(rule, key, "", "no test relates a oneof's camelCase to the fields' camelCase: resolveCamelCaseConflicts compares fields with fields only and the clash check looks up prefix+name only, so a oneof and a field with presence whose names camel-case alike both get Has<Name> and Clear<Name> and the generated message does not compile")
+	}
+}
+
+// R-UNIQUE-NAME-GETTER / R-ONEOF-WRAPPER-UNIQUE: the Open-API name allocation
+// in protogen.newMessage. (1) makeNameUnique(name, hasGetter) reserves
+// Get<name> only if hasGetter; the generator emits Get<Oneof>() for every
+// oneof, so the oneof has to be registered with hasGetter = true. (2) The
+// wrapper type of a oneof member (M_Field) is renamed until it differs from
+// every nested message and enum; it also has to differ from the wrapper types
+// of the other members.
+func (c *Ctx) ruleOpenAPINameAllocation(ruleGetter, ruleWrapper string) {
+	R, P := c.R, c.P
+	R.Rule(ruleGetter, "every makeNameUnique call in protogen.newMessage that names an entity for which the generator emits a Get method (fields, oneofs) passes hasGetter = true", 2)
+	R.Rule(ruleWrapper, "the loop in protogen.newMessage that makes the wrapper type name of a oneof member unique compares it with nested messages, nested enums and the wrapper types of the message's other oneof members", 1)
+	fi := c.need(ruleGetter, "compiler/protogen.newMessage")
+	if fi == nil {
+		return
+	}
+	info := fi.Info()
+	n := 0
+	walkAll(fi.Decl.Body, func(m ast.Node) bool {
+		call, ok := m.(*ast.CallExpr)
+		if !ok || len(call.Args) != 2 {
+			return true
+		}
+		if id, ok := call.Fun.(*ast.Ident); !ok || id.Name != "makeNameUnique" {
+			return true
+		}
+		n++
+		what := "field"
+		if strings.Contains(exprStr(call.Args[0]), "Oneof") {
+			what = "oneof"
+		}
+		tv := info.Types[call.Args[1]]
+		isTrue := tv.Value != nil && tv.Value.String() == "true"
+		R.Check(isTrue, ruleGetter, fi.Key+" makeNameUnique("+what+")", P.Pos(call), "hasGetter = true", "the "+what+" is registered with hasGetter = "+exprStr(call.Args[1])+" although the generator emits Get<"+what+" name>(): a field named get_<"+what+"> becomes a struct field with the name of that method, and the generated message does not compile")
+		return true
+	})
+	if n == 0 {
+		R.Unk(ruleGetter, fi.Key, P.Pos(fi.Decl), "no makeNameUnique call found")
+	}
+	// wrapper types
+	var loop *ast.RangeStmt
+	walkAll(fi.Decl.Body, func(m ast.Node) bool {
+		rs, ok := m.(*ast.RangeStmt)
+		if !ok || loop != nil || !strings.HasSuffix(exprStr(rs.X), ".Fields") {
+			return true
+		}
+		renames := false
+		walk(rs.Body, func(k ast.Node) bool {
+			if as, ok := k.(*ast.AssignStmt); ok && as.Tok == token.ADD_ASSIGN && strings.HasSuffix(exprStr(as.Lhs[0]), ".GoIdent.GoName") {
+				renames = true
+			}
+			return true
+		})
+		if renames {
+			loop = rs
+		}
+		return true
+	})
+	if loop == nil {
+		R.Unk(ruleWrapper, fi.Key+" wrapper types", P.Pos(fi.Decl), "wrapper type renaming loop not found")
+		return
+	}
+	against := map[string]bool{}
+	walk(loop.Body, func(k ast.Node) bool {
+		if rs, ok := k.(*ast.RangeStmt); ok {
+			s := exprStr(rs.X)
+			against[s[strings.LastIndex(s, ".")+1:]] = true
+		}
+		return true
+	})
+	R.Check(against["Messages"] && against["Enums"] && against["Fields"], ruleWrapper, fi.Key+" wrapper types", P.Pos(loop), "compared with nested messages, enums and other wrappers", "the wrapper type name of a oneof member is compared with {"+strings.Join(sortedSet(against), ", ")+"} only, not with the wrapper types of the other members: `oneof o { int32 foo = 1; int32 foo_ = 2; } message Foo {}` yields two types named E_Foo_")
 }
